@@ -299,6 +299,14 @@ func probes() []hist {
 	// float -> coin casts without a range check
 	ps = append(ps, hist{Contract: kVesting, Probe: "cast-vestingsc", Ops: []op{upd(entry{"min_lock", "1e300"}), upd(entry{"min_lock", "NaN"})}})
 	ps = append(ps, hist{Contract: kZcn, Probe: "cast-zcnsc", Ops: []op{upd(entry{"max_fee", "-5"}), upd(entry{"max_fee", "NaN"})}})
+	// a rejected request whose first (sorted) entries are cost writes, on a warm state cache, then a read in the same block
+	ps = append(ps, hist{Contract: kMiner, Cached: true, Probe: "rejected-cost-write-warm-cache", Ops: []op{
+		upd(entry{"max_n", "100"}),
+		upd(entry{"cost.add_miner", "999999"}, entry{"min_n", "1000"}),
+		upd(entry{"cost.add_sharder", "5"})}})
+	ps = append(ps, hist{Contract: kStorage, Cached: true, Demeter: true, Probe: "rejected-cost-write-warm-cache-storagesc", Ops: []op{
+		upd(entry{"cost.read_redeem", "999999"}, entry{"max_delegates", "0"}),
+		upd(entry{"cost.add_blobber", "5"})}})
 	// regular: several invalid at once, owner hand-over, old owner locked out
 	for k := 0; k < nContracts; k++ {
 		ns := names(k)
